@@ -10,7 +10,9 @@ queue, script, oracle answer, kernel answer and fuel.
 
 The other `Sys.abort` entries of the model ("no socket/connect answer", "no SO_ERROR answer", "no read answer",
 "no socketpair/fork answer") are the harness running out of scripted kernel answers, not C asserts; the other
-`Out.abortAssert` sites (`xm_used`, `cur == NULL`, the `hostlist_sort` assert F19, fuel) belong to other properties.
+`Out.abortAssert` sites (`cur == NULL`, the `hostlist_sort` assert F19, fuel) belong to other properties.  The former
+site `xm_used` (`assert(xm->xm_used)` in `xregex_match_sub_strdup`, reached by a script that uses `$N` before any `expect`)
+is gone from the code (repair 7b9cc0b) and from the model: `C07_set_before_expect_harmless`.
 
 Ranking: F6 is gone (no pass starting from a state with `FdInv` reaches one of the four asserts) ▸ the hypothesis is
 needed (the F6 state does reach one) ▸ the disconnect asserts ▸ `dbg_memstr` never overflows ▸ consequences for telemetry. -/
@@ -124,11 +126,42 @@ theorem C07_sub_is_piece_of_subject (d : Dev) (i : Int) (s : Bytes) (h : subOf d
     ∃ subj, d.xmStr = some subj ∧ s <:+: subj ∧ s.length ≤ subj.length := subOf_infix d i s h
 
 /-- with offsets inside the subject the copy has exactly `eo - so` bytes -/
-theorem C07_sub_length (d : Dev) (i so eo : Int) (subj : Bytes) (hr : d.xmResult = true) (hi : 0 ≤ i)
+theorem C07_sub_length (d : Dev) (i so eo : Int) (subj : Bytes) (hu : d.xmUsed = true) (hr : d.xmResult = true) (hi : 0 ≤ i)
     (ho : d.xmOffs[i.toNat]? = some (so, eo)) (hs : d.xmStr = some subj) (h0 : 0 ≤ so) (h2 : eo.toNat ≤ subj.length) :
-    ∃ s, subOf d i = some s ∧ s.length = (eo - so).toNat := subOf_length d i so eo subj hr hi ho hs h0 h2
+    ∃ s, subOf d i = some s ∧ s.length = (eo - so).toNat := subOf_length d i so eo subj hu hr hi ho hs h0 h2
 
-example : subOf { exDev with xmResult := true, xmStr := some [1, 2, 3, 4], xmOffs := [(0, 4), (1, 3)] } 1 = some [2, 3] := by
+example : subOf { exDev with xmUsed := true, xmResult := true, xmStr := some [1, 2, 3, 4], xmOffs := [(0, 4), (1, 3)] } 1 = some [2, 3] := by
   decide
+
+/-- without match data (`!xm_used`: no `expect` has run since the match object was created or recycled) there is no such
+    substring — `NULL`, where the code used to `assert` -/
+theorem C07_sub_without_match (d : Dev) (i : Int) (h : d.xmUsed = false) : subOf d i = none := by
+  unfold subOf; simp [h]
+
+/-- **`setplugstate` / `setresult` before any `expect` are harmless.**  With no match data (`d.xmUsed = false`) both
+    statements finish at once, produce no output — in particular no abort: the daemon used to die on
+    `assert(xm->xm_used)` here —, ask the regex engine nothing, and leave the device (argument lists included) and the
+    action exactly as they were.  This holds whatever the statement's arguments are: with a literal plug name the status
+    capture is `NULL`; without one the plug name falls back to the action's target plug exactly as when the group is
+    unset, and the status capture is `NULL` again. -/
+theorem C07_set_before_expect_harmless (d : Dev) (a : Action) (o : Oracle) (e : ExecCtx) (h : d.xmUsed = false)
+    (lit : Option Bytes) (plugMp statMp : Int) (si : List (PState × Nat)) (ri : List (PResult × Nat)) :
+    stmtSetplugstate d a o e lit plugMp statMp si = ⟨d, a, o, [], true⟩ ∧
+    stmtSetresult d a o plugMp statMp ri = ⟨d, a, o, [], true⟩ := by
+  have hs : ∀ i, subOf d i = none := fun i => C07_sub_without_match d i h
+  constructor
+  · unfold stmtSetplugstate
+    simp only [hs]
+    repeat' split
+    all_goals first | rfl | simp_all
+  · unfold stmtSetresult
+    simp only [hs]
+
+/-- non-vacuity: the device of the examples has not matched anything yet; a `setplugstate "1" $1 on=…` and a
+    `setresult $1 $2 …` run on it do nothing (and `hasAbort` of their output is `false`) -/
+example : exDev.xmUsed = false ∧
+    (stmtSetplugstate exDev default ⟨[]⟩ default (some [49]) (-1) 1 [(.on, 0)]).finished = true ∧
+    hasAbort (stmtSetplugstate exDev default ⟨[]⟩ default (some [49]) (-1) 1 [(.on, 0)]).out = false ∧
+    hasAbort (stmtSetresult exDev default ⟨[]⟩ 1 2 [(.success, 0)]).out = false := by decide
 
 end Pm.Props.C07
